@@ -1,5 +1,5 @@
 #!/bin/bash
 # usage: tools/import_round.sh <seed root dir> <label for variant A> <label for variant B>   -- imports all C??/seed dirs, 4 in parallel
-root=$1; la=$2; lb=$3
+root=$1; la=$2; lb=$3; extra=$4
 cd "$(dirname "$0")/.."
-ls -d $root/C??/seed | xargs -P 4 -I{} bash -c 'p=$(basename $(dirname {})); seeded/seedtool.py import $p A {} --as '$la' 2>&1 | grep -E "STORED|REJECTED"; seeded/seedtool.py import $p B {} --as '$lb' 2>&1 | grep -E "STORED|REJECTED"'
+ls -d $root/C??/seed | xargs -P 4 -I{} bash -c 'p=$(basename $(dirname {})); seeded/seedtool.py import $p A {} --as '$la' '$extra' 2>&1 | grep -E "STORED|REJECTED"; seeded/seedtool.py import $p B {} --as '$lb' '$extra' 2>&1 | grep -E "STORED|REJECTED"'
